@@ -33,7 +33,7 @@ RULE = (
     "(world digest, scenario digest, choice-tape digest)."
 )
 TIERS = {
-    "quick": {"runs": 160, "budget_s": 60, "min_runs": 20, "run_timeout_s": 240},
+    "quick": {"runs": 160, "budget_s": 45, "min_runs": 20, "run_timeout_s": 240},
     "thorough": {"runs": 12000, "budget_s": 800, "min_runs": 400, "run_timeout_s": 600},
 }
 COMPONENTS_REAL = [
